@@ -359,6 +359,11 @@ class Driver:
                 rel, after = a.get("release_value"), a.get("after")
                 if after is not None:
                     sim.call_ext(after, (lambda: sig.put(rel)), "release")
+                    # a signal that flaps: further [delay after the previous change, value] pairs
+                    t_ = after
+                    for dt_, val_ in a.get("then") or []:
+                        t_ += dt_
+                        sim.call_ext(t_, (lambda v_=val_: sig.put(v_)), "flap")
             elif do == "rsuspend":
                 # the public RE.request_suspend(fut) used directly (no Suspender object): one asyncio.Event and one
                 # callable (its bound `wait`) are re-used for every suspension of the case, as user code that keeps
